@@ -624,10 +624,14 @@ def check_containers(ctx, md):
             v = it.call_function(get, [Sym("param", "idx")], recv=o)
             return v, it, o
 
+        n_sel = 0
         for asg, r in explore(run):
             if isinstance(r, Raised):
                 raise AnalysisError("%s.get raises on an abstract path: %s" % (hname, r))
             v, it, o = r
+            if v is None or isinstance(v, (int, str)) and not isinstance(v, Bits) or isinstance(v, Sym) and v.op == "new":
+                continue  # the not-found answer (bounds guard instead of IndexError handler); judged in the resolver clause
+            n_sel += 1
             elems = [x for c, x, a in it.new_log if c.name == ename]
             comps = [a for a in o.attrs.values() if isinstance(a, Comp) and isinstance(a.elt, Obj) and a.elt.cls.name == ename]
             if not (len(comps) == 1 and len(elems) == 1):
@@ -659,6 +663,7 @@ def check_containers(ctx, md):
                     why = "get(idx) returns %s, expected the idx-th %s" % (show(v), ename)
             ctx.check("container", "%s.get" % hname, good, get, "%s.get" % hname, "%s.get: %s" % (hname, why),
                       detail="%s.get(idx) = element idx of %d-stride sequence of %s" % (hname, spec.fixed_size(ITEM_OF[ename]), ename))
+        ctx.require(n_sel > 0, "%s.get never returns an element" % hname)
         ctx.count("containers")
 
 
@@ -977,12 +982,14 @@ def check_header_use(ctx, md):
 class _CMInterp(DexInterp):
     """evaluates one ClassManager method; calls of the other accessors on self stay opaque (cm.<name>(args))"""
 
-    def __init__(self, *a, target=None, cm_cls=None, **k):
+    def __init__(self, *a, target=None, cm_cls=None, overrides=None, **k):
         super().__init__(*a, **k)
-        self.target, self.cm_cls = target, cm_cls
+        self.target, self.cm_cls, self.overrides = target, cm_cls, overrides or {}
 
     def _h_method(self, it, recv, name, args, kwargs, e, func):
         if isinstance(recv, Obj) and recv.cls is self.cm_cls and name != self.target and self.cm_cls.lookup(name) is not None:
+            if name in self.overrides:
+                return self.overrides[name]
             return Sym("cm." + name, *args)
         return super()._h_method(it, recv, name, args, kwargs, e, func)
 
@@ -1020,14 +1027,14 @@ def judge_passthrough(ctx, f, what, values, allowed, sentinels, describe):
     return n_ok
 
 
-def cm_returns(md, cm_cls, name, extra_attrs=None):
+def cm_returns(md, cm_cls, name, overrides=None):
     f = cm_cls.lookup(name)
     if f is None:
         raise AnalysisError("anchor vanished: ClassManager.%s" % name)
     params = f.params()[1:]
 
     def run(asg):
-        it = _CMInterp(md.repo, md.folder, asg=dict(asg), inline_module=None, target=name, cm_cls=cm_cls)
+        it = _CMInterp(md.repo, md.folder, asg=dict(asg), inline_module=None, target=name, cm_cls=cm_cls, overrides=overrides)
         slf = Obj(cm_cls, "self")
         return it.call_function(f, [Sym("param", p) for p in params], recv=slf)
 
@@ -1083,6 +1090,24 @@ def check_passthrough(ctx, md):
     judge_passthrough(ctx, f, "ClassManager.get_type", vals, [Sym("cm.get_string", Sym("cm.get_type_ref", idx))], {"AG:ITI: invalid type"},
                       "get_string(<descriptor string index of type idx>)")
     ctx.count("passthrough")
+    # every valid descriptor index resolves, in particular string index 0; only the container's not-found answer is invalid
+    for k in (0, 1):
+        f3 = cm_cls.lookup("get_type")
+        p2 = f3.params()[1:]
+
+        def run_k(asg, k=k):
+            it = _CMInterp(md.repo, md.folder, asg=dict(asg), inline_module=None, target="get_type", cm_cls=cm_cls, overrides={"get_type_ref": k})
+            return it.call_function(f3, [Sym("param", p2[0])], recv=Obj(cm_cls, "self"))
+        evaluated = [r for a, r in explore(run_k) if not isinstance(r, Raised)]
+        good = bool(evaluated) and all(v == Sym("cm.get_string", k) for v in evaluated)
+        bad = next((v for v in evaluated if v != Sym("cm.get_string", k)), None)
+        if not good and bad is not None and not (isinstance(bad, str) or contains(bad, Sym("cm.get_string", k))):
+            raise AnalysisError("ClassManager.get_type with descriptor index %d returns %s (shape outside the fragment)" % (k, show(bad)[:80]))
+        ctx.check("passthrough", "ClassManager.get_type resolves descriptor index %d" % k, good, f3,
+                  "get_type: descriptor string index %d" % k,
+                  "a type whose descriptor is string #%d must resolve to get_string(%d); ClassManager.get_type returns %s "
+                  "(the not-found test also swallows a valid index)" % (k, k, show(bad)[:60] if bad is not None else "nothing"),
+                  detail="descriptor index %d -> get_string(%d)" % (k, k))
     # StringDataItem.get hands out the decoded data of the item (decoder itself: third-party mutf8, C06 n/a)
     # get_kind(cm, Kind.STRING / RAW_STRING, v)
     gk = md.m.functions.get("get_kind")
